@@ -1591,6 +1591,15 @@ def ext_call(it, dotted, args, kw):
         for a in args:
             out.extend(it.iterate(a))
         return out
+    if name in ("bisect.bisect", "bisect.bisect_right", "bisect.bisect_left") and len(args) == 2 and not kw:
+        # position in a sorted list, by the interpreter's own comparisons (so order values and symbols decide through their atoms)
+        seq = list(it.iterate(args[0]))
+        x = args[1]
+        op = ast.Lt() if name != "bisect.bisect_left" else ast.LtE()
+        for i, e in enumerate(seq):
+            if ai.truth(ai.compare(op, x, e)):
+                return i
+        return len(seq)
     if name in ("itertools.groupby",):
         # runs of consecutive items with an equal (concrete) key
         keyf = args[1] if len(args) > 1 else kw.get("key")
